@@ -81,6 +81,8 @@ def _nonneg_lit(n):
 
 def E(n, env):
     """integer expression -> Lean `Int` term"""
+    if not isinstance(n, ast.Constant) and ast.unparse(n) in env:
+        return env[ast.unparse(n)]
     if isinstance(n, ast.Constant) and isinstance(n.value, int) and not isinstance(n.value, bool):
         return '(%d : Int)' % n.value if n.value >= 0 else '(-%d : Int)' % -n.value
     if isinstance(n, (ast.Name, ast.Attribute, ast.Subscript)):
@@ -150,7 +152,9 @@ _AUG = {ast.Add: ast.Add, ast.Sub: ast.Sub, ast.Mult: ast.Mult, ast.LShift: ast.
 class FuncTranslator:
     """translate `def f(params): <assign | augassign | if | while | return>*` into Lean defs returning `Ret`"""
 
-    def __init__(self, module_tree, fn, lean_name, fuel=64):
+    def __init__(self, module_tree, fn, lean_name, fuel=64, params=None, env=None):
+        self.params = params
+        self.env0 = env
         self.mod = module_tree
         self.fn = fn
         self.name = lean_name
@@ -259,29 +263,223 @@ class FuncTranslator:
         raise ExtractError('untranslatable statement %s' % ast.unparse(st).split('\n')[0])
 
     def render(self):
-        params = [a.arg for a in self.fn.args.args]
-        env = {p: p for p in params}
+        params = self.params if self.params is not None else [a.arg for a in self.fn.args.args]
+        env = dict(self.env0) if self.env0 is not None else {p: p for p in params}
         body = self.block(self.fn.body, lambda i, e, d: ' ' * i + 'Ret.none', 2, env, list(params))
         return '\n\n'.join(self.aux + ['def %s (%s : Int) : Ret :=\n%s' % (self.name, ' '.join(params), body)])
 
 
+def _assigns(fn):
+    """{target text: value node} for single-target assignments under fn (first occurrence wins), + ordered list"""
+    d, order = {}, []
+    for n in sorted((m for m in ast.walk(fn) if isinstance(m, ast.Assign) and len(m.targets) == 1), key=lambda m: (m.lineno, m.col_offset)):
+        t = ast.unparse(n.targets[0])
+        order.append((t, n.value))
+        d.setdefault(t, n.value)
+    return d, order
+
+
+def _scale_of_int_call(v, what):
+    """`int(<expr> * <number literal>)` -> (source text of <expr>, literal as int)"""
+    X.expect(isinstance(v, ast.Call) and ast.unparse(v.func) == 'int' and len(v.args) == 1 and isinstance(v.args[0], ast.BinOp)
+             and isinstance(v.args[0].op, ast.Mult) and isinstance(v.args[0].right, ast.Constant)
+             and isinstance(v.args[0].right.value, (int, float)) and float(v.args[0].right.value).is_integer() and v.args[0].right.value > 0,
+             '%s: expected int(<expr> * <positive integer-valued literal>), got %s' % (what, ast.unparse(v)))
+    return ast.unparse(v.args[0].left), int(v.args[0].right.value)
+
+
+def _ret_value(fn, what):
+    rets = [n for n in ast.walk(fn) if isinstance(n, ast.Return)]
+    X.expect(len(rets) == 1 and rets[0].value is not None, '%s: expected exactly one return' % what)
+    return rets[0].value
+
+
+def _one_struct(fn, what):
+    sc = X.struct_calls(fn)
+    X.expect(len(sc) == 1 and sc[0]['fmt'] is not None, '%s: expected one struct call with a literal format' % what)
+    return sc[0]
+
+
+def _ranges(fn):
+    res = [(n.lineno, n.col_offset, ast.unparse(n.iter)) for n in ast.walk(fn) if isinstance(n, ast.For)]
+    return [t for _, _, t in sorted(res)]
+
+
 def extract(ctx):
-    g = X.GenFile(PID, ['cflib/utils/encoding.py'])
+    files = ['cflib/utils/encoding.py', 'cflib/crazyflie/mem/trajectory_memory.py', 'cflib/crazyflie/mem/led_driver_memory.py',
+             'cflib/crazyflie/mem/led_timings_driver_memory.py', 'cflib/crazyflie/localization.py']
+    g = X.GenFile(PID, files)
     g.raw(PRELUDE)
     enc = X.parse('cflib/utils/encoding.py')
     g.raw('/-! ### cflib/utils/encoding.py: fp16_to_float (translated) -/\n')
     g.raw(FuncTranslator(enc, X.find(enc, 'fp16_to_float'), 'fp16_to_float').render())
-    return {'C13.lean': g.render()}
+
+    # ---- quaternion compression ----------------------------------------------------------------
+    g.raw('\n/-! ### cflib/utils/encoding.py: compress_quaternion / decompress_quaternion -/\n')
+    cq = X.find(enc, 'compress_quaternion')
+    ca, corder = _assigns(cq)
+    for k in ('quat_n', 'i_largest', 'negate', 'M_SQRT1_2', 'comp', 'negbit', 'mag'):
+        X.expect(k in ca, 'compress_quaternion: assignment to %s not found' % k)
+    g.string('cqNormalise', ast.unparse(ca['quat_n']))
+    g.string('cqNegate', ast.unparse(ca['negate']))
+    g.string('cqSqrtHalf', ast.unparse(ca['M_SQRT1_2']))
+    g.string('cqNegbit', ast.unparse(ca['negbit']))
+    g.strings('cqCompares', X.compares(cq))
+    g.strings('cqRanges', _ranges(cq))
+    g.strings('cqCompAssigns', [ast.unparse(v) for t, v in corder if t == 'comp'])
+    # mag = int(<scale> * (abs(quat_n[i]) / M_SQRT1_2) + 0.5)
+    m = ca['mag']
+    X.expect(isinstance(m, ast.Call) and ast.unparse(m.func) == 'int' and len(m.args) == 1 and isinstance(m.args[0], ast.BinOp)
+             and isinstance(m.args[0].op, ast.Add) and isinstance(m.args[0].left, ast.BinOp) and isinstance(m.args[0].left.op, ast.Mult),
+             'compress_quaternion: mag expression has an unexpected shape: ' + ast.unparse(m))
+    g.raw('def cqScale : Int := ' + E(m.args[0].left.left, {}))
+    g.string('cqMagOperand', ast.unparse(m.args[0].left.right))
+    g.string('cqMagRounding', ast.unparse(m.args[0].right))
+    push = [v for t, v in corder if t == 'comp'][-1]
+    g.raw('def cqPush (comp negbit mag : Int) : Int := ' + E(push, {'comp': 'comp', 'negbit': 'negbit', 'mag': 'mag'}))
+    g.string('cqReturn', ast.unparse(_ret_value(cq, 'compress_quaternion')))
+    dq = X.find(enc, 'decompress_quaternion')
+    da, dorder = _assigns(dq)
+    for k in ('mask', 'i_largest', 'mag', 'negbit', 'comp', 'q[i]', 'q[i_largest]', 'sum_squares'):
+        X.expect(k in da, 'decompress_quaternion: assignment to %s not found' % k)
+    g.raw('def dqMask : Int := ' + E(da['mask'], {}))
+    env = {'comp': 'comp', 'mask': 'dqMask'}
+    g.raw('def dqLargest (comp : Int) : Int := ' + E(da['i_largest'], env))
+    g.raw('def dqMag (comp : Int) : Int := ' + E(da['mag'], env))
+    g.raw('def dqNegbit (comp : Int) : Int := ' + E(da['negbit'], env))
+    g.raw('def dqNext (comp : Int) : Int := ' + E(da['comp'], env))
+    g.strings('dqStmtOrder', [t for t, _ in dorder])
+    g.strings('dqCompares', X.compares(dq))
+    g.strings('dqRanges', _ranges(dq))
+    g.strings('dqComponent', [ast.unparse(v) for t, v in dorder if t == 'q[i]'])
+    g.string('dqLargestComponent', ast.unparse(da['q[i_largest]']))
+    g.strings('dqAugAssigns', [ast.unparse(n) for n in ast.walk(dq) if isinstance(n, ast.AugAssign)])
+    g.string('dqReturn', ast.unparse(_ret_value(dq, 'decompress_quaternion')))
+
+    # ---- compressed trajectories -----------------------------------------------------------------
+    g.raw('\n/-! ### cflib/crazyflie/mem/trajectory_memory.py -/\n')
+    tm = X.parse('cflib/crazyflie/mem/trajectory_memory.py')
+    operand, k = _scale_of_int_call(_ret_value(X.find(tm, '_CompressedBase._encode_spatial'), '_encode_spatial'), '_encode_spatial')
+    g.string('spatialOperand', operand)
+    g.nat('spatialScale', k)
+    operand, k = _scale_of_int_call(_ret_value(X.find(tm, '_CompressedBase._encode_yaw'), '_encode_yaw'), '_encode_yaw')
+    g.string('yawOperand', operand)
+    g.nat('yawScale', k)
+    g.string('spatialElement', ast.unparse(_ret_value(X.find(tm, '_CompressedBase._encode_spatial_element'), '_encode_spatial_element')))
+    g.string('yawElement', ast.unparse(_ret_value(X.find(tm, '_CompressedBase._encode_yaw_element'), '_encode_yaw_element')))
+    sc = _one_struct(X.find(tm, 'CompressedStart.pack'), 'CompressedStart.pack')
+    g.string('startFmt', sc['fmt'])
+    g.strings('startArgs', sc['args'])
+    seg = X.find(tm, 'CompressedSegment.pack')
+    sa, _ = _assigns(seg)
+    X.expect('element_types' in sa and 'duration_ms' in sa, 'CompressedSegment.pack: element_types / duration_ms not found')
+    tenv = {'self._encode_type(self.x)': 'tx', 'self._encode_type(self.y)': 'ty', 'self._encode_type(self.z)': 'tz',
+            'self._encode_type(self.yaw)': 'tyaw'}
+    g.raw('def segTypes (tx ty tz tyaw : Int) : Int := ' + E(sa['element_types'], tenv))
+    operand, k = _scale_of_int_call(sa['duration_ms'], 'duration_ms')
+    g.string('durationOperand', operand)
+    g.nat('durationScale', k)
+    sc = _one_struct(seg, 'CompressedSegment.pack')
+    g.string('segHeadFmt', sc['fmt'])
+    g.strings('segHeadArgs', sc['args'])
+    g.strings('segElementCalls', [ast.unparse(n.value) for n in sorted((m for m in ast.walk(seg) if isinstance(m, ast.AugAssign)), key=lambda m: m.lineno)])
+    sc = _one_struct(X.find(tm, 'CompressedSegment._pack_element'), '_pack_element')
+    g.string('segElemFmt', sc['fmt'])
+    g.strings('segElemArgs', sc['args'])
+    g.raw(FuncTranslator(tm, X.find(tm, 'CompressedSegment._encode_type'), 'segEncodeType', params=['n'], env={'len(element)': 'n'}).render())
+    g.strings('segValidateCompares', X.compares(X.find(tm, 'CompressedSegment._validate')))
+    g.strings('segInitValidates', [ast.unparse(n.value) for n in X.find(tm, 'CompressedSegment.__init__').body
+                                   if isinstance(n, ast.Expr) and isinstance(n.value, ast.Call)])
+
+    # ---- LED ring ---------------------------------------------------------------------------------
+    g.raw('\n/-! ### cflib/crazyflie/mem/led_driver_memory.py -/\n')
+    led = X.find(X.parse('cflib/crazyflie/mem/led_driver_memory.py'), 'LEDDriverMemory.write_data')
+    la, _ = _assigns(led)
+    for name, attr in (('R5', 'led.r'), ('G6', 'led.g'), ('B5', 'led.b')):
+        X.expect(name in la, 'LEDDriverMemory.write_data: %s not found' % name)
+        v = la[name]
+        # <component expr> * led.intensity / 100
+        X.expect(isinstance(v, ast.BinOp) and isinstance(v.op, ast.Div) and isinstance(v.left, ast.BinOp) and isinstance(v.left.op, ast.Mult),
+                 'LEDDriverMemory.write_data: %s is not <component> * <intensity> / <const>: %s' % (name, ast.unparse(v)))
+        g.raw('def led%s (c : Int) : Int := %s' % (name, E(v.left.left, {attr: 'c'})))
+        g.string('led%sIntensity' % name, ast.unparse(v.left.right))
+        X.expect(isinstance(v.right, ast.Constant) and isinstance(v.right.value, int) and v.right.value > 0, 'LED intensity divisor is not a positive int literal')
+        g.nat('led%sDivisor' % name, v.right.value)
+    X.expect('tmp' in la, 'LEDDriverMemory.write_data: tmp not found')
+    g.raw('def ledPack (r5 g6 b5 : Int) : Int := ' + E(la['tmp'], {'R5': 'r5', 'G6': 'g6', 'B5': 'b5'}))
+    aug = [n for n in ast.walk(led) if isinstance(n, ast.AugAssign)]
+    X.expect(len(aug) == 1 and isinstance(aug[0].value, ast.Call) and ast.unparse(aug[0].value.func) == 'bytearray'
+             and len(aug[0].value.args) == 1 and isinstance(aug[0].value.args[0], ast.Tuple) and len(aug[0].value.args[0].elts) == 2,
+             'LEDDriverMemory.write_data: expected data += bytearray((hi, lo))')
+    hi, lo = aug[0].value.args[0].elts
+    g.raw('def ledHi (tmp : Int) : Int := ' + E(hi, {'tmp': 'tmp'}))
+    g.raw('def ledLo (tmp : Int) : Int := ' + E(lo, {'tmp': 'tmp'}))
+    g.strings('ledRanges', _ranges(led))
+    ledcls = X.find(X.parse('cflib/crazyflie/mem/led_driver_memory.py'), 'LEDDriverMemory.__init__')
+    g.strings('ledInitRanges', _ranges(ledcls))
+
+    g.raw('\n/-! ### cflib/crazyflie/mem/led_timings_driver_memory.py -/\n')
+    lt = X.find(X.parse('cflib/crazyflie/mem/led_timings_driver_memory.py'), 'LEDTimingsDriverMemory.write_data')
+    ta, _ = _assigns(lt)
+    for name, key in (('R5', 'r'), ('G6', 'g'), ('B5', 'b')):
+        X.expect(name in ta, 'LEDTimingsDriverMemory.write_data: %s not found' % name)
+        g.raw('def ledt%s (c : Int) : Int := %s' % (name, E(ta[name], {"timing['rgb']['%s']" % key: 'c'})))
+    X.expect('led' in ta and 'extra' in ta, 'LEDTimingsDriverMemory.write_data: led / extra not found')
+    g.raw('def ledtPack (r5 g6 b5 : Int) : Int := ' + E(ta['led'], {'R5': 'r5', 'G6': 'g6', 'B5': 'b5'}))
+    tenv = {"timing['leds']": 'leds', "timing['fade']": 'fade', "timing['rotate']": 'rotate', "timing['time']": 'time', 'led': 'led', 'extra': 'extra'}
+    g.raw('def ledtExtra (leds fade rotate : Int) : Int := ' + E(ta['extra'], tenv))
+    ifs = [n for n in ast.walk(lt) if isinstance(n, ast.If) and 'led' in ast.unparse(n.test)]
+    X.expect(len(ifs) == 1 and not ifs[0].orelse and len(ifs[0].body) == 1 and isinstance(ifs[0].body[0], ast.AugAssign)
+             and isinstance(ifs[0].body[0].value, ast.List), 'LEDTimingsDriverMemory.write_data: expected `if <cond>: data += [..]`')
+    g.raw('def ledtKeep (time led extra : Int) : Bool := ' + T(ifs[0].test, tenv))
+    els = ifs[0].body[0].value.elts
+    g.raw('def ledtEntry (time led extra : Int) : List Int := [' + ', '.join(E(e, tenv) for e in els) + ']')
+    term = [n for n in ast.walk(lt) if isinstance(n, ast.AugAssign) and n is not ifs[0].body[0]]
+    X.expect(len(term) == 1 and isinstance(term[0].value, ast.List), 'LEDTimingsDriverMemory.write_data: terminator not found')
+    g.raw('def ledtTerminator : List Int := [' + ', '.join(E(e, {}) for e in term[0].value.elts) + ']')
+
+    # ---- localization --------------------------------------------------------------------------------
+    g.raw('\n/-! ### cflib/crazyflie/localization.py -/\n')
+    loc = X.parse('cflib/crazyflie/localization.py')
+    consts = X.int_assigns(X.find(loc, 'Localization'))
+    for k in ('RANGE_STREAM_REPORT', 'LH_ANGLE_STREAM', 'LH_PERSIST_DATA'):
+        X.expect(k in consts, 'Localization.%s not found' % k)
+    g.nat('locRangeStreamReport', consts['RANGE_STREAM_REPORT'])
+    g.nat('locLhAngleStream', consts['LH_ANGLE_STREAM'])
+    g.nat('locLhPersistData', consts['LH_PERSIST_DATA'])
+    inc = X.find(loc, 'Localization._incoming')
+    sc = X.struct_calls(inc)
+    g.strings('incFmts', [c['fmt'] or '?' for c in sc])
+    g.strings('incArgs', [','.join(c['args']) for c in sc])
+    g.strings('incCompares', X.compares(inc))
+    ia, iorder = _assigns(inc)
+    g.strings('incAssigns', ['%s = %s' % (t, ast.unparse(v)) for t, v in iorder])
+    g.strings('incRanges', _ranges(inc))
+    lh = X.find(loc, 'Localization._decode_lh_angle')
+    sc = _one_struct(lh, '_decode_lh_angle')
+    g.string('lhFmt', sc['fmt'])
+    g.strings('lhArgs', sc['args'])
+    _, lorder = _assigns(lh)
+    g.strings('lhAssigns', ['%s = %s' % (t, ast.unparse(v)) for t, v in lorder if t != 'raw_data'])
+    imports = [ast.unparse(n) for n in loc.body if isinstance(n, ast.ImportFrom) and any(a.name == 'fp16_to_float' for a in n.names)]
+    g.strings('lhFp16Import', imports)
+    text = g.render()
+    return {'C13.lean': text}
 
 
 # ======================================================================================================
-# Tie B
+# Tie B: the real code, canonicalised
 # ======================================================================================================
 def _quiet():
     import logging
     import warnings
     logging.disable(logging.CRITICAL)
     warnings.filterwarnings('ignore')
+
+
+def _exc(e):
+    from harness.lib.common import exc_enum
+    return 'err ' + exc_enum(e)
 
 
 def canon_num(x):
@@ -298,44 +496,537 @@ def canon_num(x):
     try:
         b = struct.pack('<f', x)
     except OverflowError:
-        return 'f64:%s' % struct.pack('<d', x).hex()
+        return 'f64:%s' % struct.pack('>d', x).hex()
     if struct.unpack('<f', b)[0] != x:
-        return 'f64:%s' % struct.pack('<d', x).hex()      # not a binary32 value
+        return 'f64:%s' % struct.pack('>d', x).hex()      # not a binary32 value
     return 'f32:%d' % struct.unpack('<I', b)[0]
 
 
-def canon_model_num(reply):
-    """the model prints the exact binary32 pattern; fold NaN patterns like canon_num does"""
-    if reply.startswith('ok f32:'):
-        b = int(reply[7:])
+def fold_nan32(tok):
+    """`f32:<bits>` -> `f32:nan` when the pattern is a NaN (see canon_num)"""
+    if tok.startswith('f32:') and tok[4:].isdigit():
+        b = int(tok[4:])
         if (b >> 23) & 0xFF == 0xFF and b & 0x7FFFFF:
-            return 'ok f32:nan'
-    return reply
+            return 'f32:nan'
+    return tok
+
+
+def canon_f64(x):
+    import math
+    import struct
+    if isinstance(x, bool) or not isinstance(x, (int, float)):
+        return 'other:' + type(x).__name__
+    if isinstance(x, int):
+        return 'int:%d' % x
+    return 'f64:nan' if math.isnan(x) else 'f64:' + struct.pack('>d', x).hex()
 
 
 def real_fp16(v):
     from cflib.utils.encoding import fp16_to_float
-    from harness.lib.common import exc_enum
     try:
         return 'ok ' + canon_num(fp16_to_float(v))
     except Exception as e:
-        return 'err ' + exc_enum(e)
+        return _exc(e)
+
+
+# ---- quaternions ----------------------------------------------------------------------------------
+def to_int_quat(q):
+    """exact integer quaternion proportional to the float quaternion q (scale by the common denominator)"""
+    from fractions import Fraction
+    from math import lcm
+    fr = [Fraction(float(x)) for x in q]
+    d = 1
+    for f in fr:
+        d = lcm(d, f.denominator)
+    return [int(f * d) for f in fr]
+
+
+QS = 511
+
+
+def quat_fields(comp):
+    """(i_largest, [(negbit, mag) for the three stored components in index order])"""
+    out = []
+    c = comp
+    for _ in range(3):
+        out.append(((c >> 9) & 1, c & 511))
+        c >>= 10
+    return c, out[::-1]
+
+
+def quat_near_tie(v):
+    """for an integer quaternion: (largest-selection is numerically ambiguous?, set of stored-component positions
+    whose magnitude is within 1e-6 of a rounding boundary of int(511*sqrt2*|x| + 0.5))"""
+    import math
+    from fractions import Fraction
+    n = sum(x * x for x in v)
+    ab = [abs(x) for x in v]
+    amb = False
+    for i in range(4):
+        for j in range(i + 1, 4):
+            if ab[i] != ab[j] and abs(ab[i] - ab[j]) <= 1e-12 * max(ab[i], ab[j]):
+                amb = True
+    il = 0
+    for i in range(1, 4):
+        if ab[i] > ab[il]:
+            il = i
+    near = set()
+    pos = 0
+    for i in range(4):
+        if i == il:
+            continue
+        X8 = Fraction(8 * QS * QS * v[i] * v[i], n)
+        t = math.sqrt(float(X8))            # = 2*y ; boundaries at odd integers
+        k = round((t - 1) / 2) * 2 + 1
+        if abs(t - k) < 1e-6:
+            near.add(pos)
+        pos += 1
+    return amb, near
+
+
+def real_cq(q):
+    from cflib.utils.encoding import compress_quaternion
+    try:
+        r = compress_quaternion(list(q))
+        return 'ok %d' % int(r)
+    except Exception as e:
+        return _exc(e)
+
+
+def cmp_cq(model, real, v):
+    """equal, or differing only in a magnitude that sits on a rounding boundary of the binary64 evaluation"""
+    if model == real:
+        return True, 'exact'
+    if not (model.startswith('ok ') and real.startswith('ok ')):
+        return False, 'mismatch'
+    amb, near = quat_near_tie(v)
+    if amb:
+        return True, 'ambiguous-largest'
+    (ia, fa), (ib, fb) = quat_fields(int(model[3:])), quat_fields(int(real[3:]))
+    if ia != ib:
+        return False, 'mismatch'
+    for pos, (x, y) in enumerate(zip(fa, fb)):
+        if x == y:
+            continue
+        if pos in near and x[0] == y[0] and abs(x[1] - y[1]) <= 1:
+            continue
+        return False, 'mismatch'
+    return True, 'rounding-boundary'
+
+
+def dq_expected(model):
+    """numeric glue of decompress_quaternion applied to the model's integer parts: q[i] = ±mag/511/sqrt(2) in binary64,
+    q[i_largest] = sqrt(1 - sum of squares accumulated in processing order)"""
+    import numpy as np
+    if not model.startswith('ok '):
+        return model
+    il, comps = model[3:].split(' ')
+    il = int(il)
+    q = [0.0] * 4
+    ss = 0
+    for c in ([] if comps == '-' else comps.split(',')):
+        i, neg, mag = (int(t) for t in c.split(':'))
+        x = mag / QS / np.sqrt(2)
+        if neg == 1:
+            x = -x
+        q[i] = x
+        ss += x * x
+    with np.errstate(all='ignore'):
+        q[il] = np.sqrt(1.0 - ss)
+    return 'ok ' + ' '.join(canon_f64(float(x)) for x in q)
+
+
+def real_dq(comp):
+    import numpy as np
+    from cflib.utils.encoding import decompress_quaternion
+    try:
+        with np.errstate(all='ignore'):
+            r = decompress_quaternion(comp)
+        return 'ok ' + ' '.join(canon_f64(float(x)) for x in r)
+    except Exception as e:
+        return _exc(e)
+
+
+# ---- trajectories ---------------------------------------------------------------------------------
+def qtxt(x):
+    from fractions import Fraction
+    f = Fraction(float(x))
+    return '%d/%d' % (f.numerator, f.denominator)
+
+
+def on_boundary(x, k):
+    """binary64 product x*k is an integer although the exact product is not: int(x*k) then legitimately differs from
+    the truncation of the exact product (by one unit, still less than one unit away from it)"""
+    from fractions import Fraction
+    import math
+    p = float(x) * k
+    return math.isfinite(p) and p == int(p) and Fraction(float(x)) * k != int(p)
+
+
+def _base():
+    from cflib.crazyflie.mem.trajectory_memory import _CompressedBase
+    return _CompressedBase()
+
+
+def real_spatial(x):
+    try:
+        return 'ok %d' % _base()._encode_spatial(x)
+    except Exception as e:
+        return _exc(e)
+
+
+def real_yaw(a):
+    try:
+        return 'ok %d' % _base()._encode_yaw(a)
+    except Exception as e:
+        return _exc(e)
+
+
+def real_start(x, y, z, yaw):
+    from cflib.crazyflie.mem.trajectory_memory import CompressedStart
+    try:
+        return 'ok ' + bytes(CompressedStart(x, y, z, yaw).pack()).hex()
+    except Exception as e:
+        return _exc(e)
+
+
+def real_segment(d, x, y, z, yaw):
+    from cflib.crazyflie.mem.trajectory_memory import CompressedSegment
+    import struct
+    try:
+        return 'ok ' + bytes(CompressedSegment(d, x, y, z, yaw).pack()).hex()
+    except struct.error as e:
+        return _exc(e)
+    except Exception as e:
+        return 'err other' if type(e) is Exception else _exc(e)
+
+
+# ---- LEDs -----------------------------------------------------------------------------------------
+class FakeMemHandler:
+    def __init__(self):
+        self.writes = []
+
+    def write(self, mem, addr, data, flush_queue=False):
+        self.writes.append((addr, bytes(data)))
+
+
+def real_led(leds):
+    """leds: 12 x (r, g, b, intensity)"""
+    from cflib.crazyflie.mem.led_driver_memory import LEDDriverMemory
+    h = FakeMemHandler()
+    m = LEDDriverMemory(id=0, type=0x10, size=24, mem_handler=h)
+    assert len(m.leds) == len(leds)
+    for led, (r, g, b, i) in zip(m.leds, leds):
+        led.set(r, g, b)
+        led.intensity = i
+    try:
+        m.write_data(None)
+        assert len(h.writes) == 1 and h.writes[0][0] == 0
+        return 'ok ' + (h.writes[0][1].hex() or '-')
+    except Exception as e:
+        return _exc(e)
+
+
+def real_ledt(ts):
+    from cflib.crazyflie.mem.led_timings_driver_memory import LEDTimingsDriverMemory
+    h = FakeMemHandler()
+    m = LEDTimingsDriverMemory(id=0, type=0x17, size=2000, mem_handler=h)
+    for (t, r, g, b, leds, fade, rot) in ts:
+        m.add(t, {'r': r, 'g': g, 'b': b}, leds, bool(fade), rot)
+    try:
+        m.write_data(None)
+        return 'ok ' + (h.writes[0][1].hex() or '-')
+    except Exception as e:
+        return _exc(e)
+
+
+# ---- localization ---------------------------------------------------------------------------------
+class _Pk:
+    def __init__(self, data):
+        self.data = bytearray(data)
+
+
+def real_incoming(raw):
+    from cflib.crazyflie.localization import Localization
+    from cflib.utils.callbacks import Caller
+    loc = Localization.__new__(Localization)
+    loc.receivedLocationPacket = Caller()
+    got = []
+    loc.receivedLocationPacket.add_callback(got.append)
+    try:
+        loc._incoming(_Pk(raw))
+    except Exception as e:
+        return _exc(e)
+    if not got:
+        return 'ok dropped'
+    assert len(got) == 1
+    pk = got[0]
+    d = pk.data
+    if d is None:
+        dec = 'none'
+    elif isinstance(d, bool):
+        dec = 'persist %d' % (1 if d else 0)
+    elif isinstance(d, dict) and 'basestation' in d:
+        dec = 'lh %d %s %s' % (d['basestation'], ';'.join(canon_f64(v) for v in d['x']), ';'.join(canon_f64(v) for v in d['y']))
+    elif isinstance(d, dict):
+        dec = 'ranges ' + (','.join('%d:%s' % (k, canon_num(d[k])) for k in sorted(d)) or '-')
+    else:
+        dec = 'other'
+    return 'ok %d %s %s' % (pk.type, bytes(pk.raw_data).hex() or '-', dec)
+
+
+def canon_model_incoming(reply):
+    """apply the numeric glue to the model's symbolic angles: base -> the binary32 value widened; sub -> binary64 subtraction"""
+    from harness.lib.common import bits_f32
+    if not reply.startswith('ok ') or reply == 'ok dropped':
+        return reply
+    w = reply.split(' ')
+    if w[3] == 'ranges' and w[4] != '-':
+        w[4] = ','.join(e.split(':')[0] + ':' + fold_nan32('f32:' + e.split(':')[1]) for e in w[4].split(','))
+    if w[3] == 'lh':
+        def ang(t):
+            if t[0] == 'b':
+                return canon_f64(bits_f32(int(t[1:])))
+            base, kind, val = t[1:].split(':')
+            off = bits_f32(int(val)) if kind == 'f32' else int(val)
+            return canon_f64(bits_f32(int(base)) - off)
+        w[5] = ';'.join(ang(t) for t in w[5].split(';'))
+        w[6] = ';'.join(ang(t) for t in w[6].split(';'))
+    return ' '.join(w)
+
+
+def real_bitop(op, a, b):
+    import operator
+    f = {'and': operator.and_, 'or': operator.or_, 'xor': operator.xor, 'shl': operator.lshift, 'shr': operator.rshift,
+         'not': lambda x, _: ~x}[op]
+    return 'ok %d' % f(a, b)
+
+
+# ======================================================================================================
+# generators
+# ======================================================================================================
+SPECIAL_F32 = [0x00000000, 0x80000000, 0x3F800000, 0xBF800000, 0x7F800000, 0xFF800000, 0x7FC00000, 0x00000001, 0x40490FDB,
+               0xC0490FDB, 0x3FC90FDB, 0x7F7FFFFF, 0x3DCCCCCD]
+SPECIAL_F16 = [0x0000, 0x8000, 0x3C00, 0xBC00, 0x7C00, 0xFC00, 0x7E00, 0xFE00, 0x0001, 0x8001, 0x03FF, 0x0400, 0x7BFF, 0xFBFF,
+               0x3555, 0xB555, 0x2E66]
+
+
+def gen_quats(rng, n_random):
+    """float quaternions: axis/diagonal grid with all sign patterns (exact ties for the largest component), negated and
+    unnormalised copies, near-equal components, tiny/huge scales, random directions"""
+    import itertools
+    import math
+    out = []
+    for pat in itertools.product([-1.0, 0.0, 1.0], repeat=4):
+        if any(pat):
+            out.append(('grid', list(pat)))
+    for pat in itertools.product([-1.0, 1.0], repeat=4):
+        out.append(('grid', [pat[0] * 0.5, pat[1] * 0.5, pat[2] * 0.5, pat[3] * 0.5]))
+        out.append(('tie', [pat[0] * 3.0, pat[1] * 3.0, pat[2] * 1.0, pat[3] * 2.0]))
+        out.append(('tie', [pat[0] * 1.0, pat[1] * 2.0, pat[2] * 2.0, pat[3] * 0.0]))
+    for _ in range(n_random):
+        kind = rng.choice(['unit', 'unit', 'unnorm', 'small', 'axisish', 'twoeq', 'negzero'])
+        q = [rng.gauss(0, 1) for _ in range(4)]
+        n = math.sqrt(sum(x * x for x in q))
+        q = [x / n for x in q]
+        if kind == 'unnorm':
+            sc = rng.choice([1e-3, 0.3, 7.0, 1234.5])
+            q = [x * sc for x in q]
+        elif kind == 'small':
+            k = rng.randrange(4)
+            q = [x if i == k else x * rng.choice([1e-3, 1e-2, 0.0]) for i, x in enumerate(q)]
+        elif kind == 'axisish':
+            k = rng.randrange(4)
+            q = [(1.0 if i == k else rng.uniform(-0.01, 0.01)) for i in range(4)]
+        elif kind == 'twoeq':
+            i, j = rng.sample(range(4), 2)
+            q[j] = rng.choice([1, -1]) * q[i]
+        elif kind == 'negzero':
+            q[rng.randrange(4)] = -0.0
+        out.append((kind, q))
+        if rng.random() < 0.3:
+            out.append((kind + '-negated', [-x for x in q]))
+    return out
 
 
 def gen_cases(ctx):
     rng = ctx.rng
-    cases = []
-    # half floats: all 65536 patterns (unsigned reading) + the signed reading of the upper half + wider ints
+    thorough = ctx.tier == 'thorough'
+    cases = []          # (kind, lean_line, real_thunk, desc, nontrivial_key, counter, post(model)->canonical, cmp or None)
+
+    def add(kind, line, thunk, desc, key, cnt, post=None, cmp=None):
+        cases.append((kind, line, thunk, desc, key, cnt, post, cmp))
+    # ---- prelude self-test: the translated bit operators are Python's, for negative operands too
+    for _ in range(300):
+        op = rng.choice(['and', 'or', 'xor', 'shl', 'shr', 'not'])
+        a = rng.choice([1, -1]) * rng.getrandbits(rng.choice([0, 3, 8, 16, 33, 70]))
+        b = rng.randrange(0, 40) if op in ('shl', 'shr') else rng.choice([1, -1]) * rng.getrandbits(rng.choice([0, 3, 8, 16, 33, 70]))
+        add('bitop', 'bitop %s %d %d' % (op, a, b), lambda op=op, a=a, b=b: real_bitop(op, a, b), {'op': 'bitop', 'f': op, 'a': a, 'b': b},
+            ('bitop', op, a, b), 'bitop:' + op + (':neg' if a < 0 or b < 0 else ''))
+    # ---- half floats: all 65536 patterns (unsigned reading) + the signed reading of the upper half + wider ints
     for h in range(65536):
         cls = 'zero' if h & 0x7FFF == 0 else 'sub' if (h >> 10) & 31 == 0 else 'inf' if h & 0x7FFF == 0x7C00 else \
             'nan' if (h >> 10) & 31 == 31 else 'normal'
-        cases.append(('fp16', 'fp16 %d' % h, lambda v=h: real_fp16(v), {'op': 'fp16', 'h': h}, ('fp16', h), 'fp16:' + cls))
-    signed = range(-32768, 0) if ctx.tier == 'thorough' else sorted(set(list(range(-32768, 0, 7)) + [-1, -2, -1024, -1023, -31744, -31745, -32767]))
+        add('fp16', 'fp16 %d' % h, lambda v=h: real_fp16(v), {'op': 'fp16', 'h': h}, ('fp16', h), 'fp16:' + cls,
+            post=lambda m: ' '.join(fold_nan32(t) for t in m.split(' ')))
+    signed = range(-32768, 0) if thorough else sorted(set(list(range(-32768, 0, 7)) + [-1, -2, -1024, -1023, -31744, -31745, -32767]))
     for v in signed:
-        cases.append(('fp16', 'fp16 %d' % v, lambda v=v: real_fp16(v), {'op': 'fp16', 'v': v}, ('fp16s', v), 'fp16:signed'))
+        add('fp16', 'fp16 %d' % v, lambda v=v: real_fp16(v), {'op': 'fp16', 'v': v}, ('fp16s', v), 'fp16:signed',
+            post=lambda m: ' '.join(fold_nan32(t) for t in m.split(' ')))
     for _ in range(200):
         v = rng.choice([1, -1]) * rng.getrandbits(rng.choice([17, 20, 33, 70]))
-        cases.append(('fp16', 'fp16 %d' % v, lambda v=v: real_fp16(v), {'op': 'fp16', 'v': v}, ('fp16w', v), 'fp16:wide'))
+        add('fp16', 'fp16 %d' % v, lambda v=v: real_fp16(v), {'op': 'fp16', 'v': v}, ('fp16w', v), 'fp16:wide',
+            post=lambda m: ' '.join(fold_nan32(t) for t in m.split(' ')))
+    # ---- quaternion compression
+    for kind, q in gen_quats(rng, 6000 if thorough else 1200):
+        v = to_int_quat(q)
+        add('cq', 'cq %d %d %d %d' % tuple(v), lambda q=q: real_cq(q), {'op': 'compress', 'q': q}, ('cq', tuple(v)), 'cq:' + kind,
+            cmp=lambda m, r, v=v: cmp_cq(m, r, v))
+    add('cq', 'cq 0 0 0 0', lambda: real_cq([0.0, 0.0, 0.0, 0.0]), {'op': 'compress', 'q': [0, 0, 0, 0]}, ('cq', (0, 0, 0, 0)), 'cq:zero')
+    # ---- quaternion decompression: every largest index x sign pattern, boundary magnitudes, random words, out-of-range words
+    dq = []
+    for il in range(4):
+        for bits in range(8):
+            for mags in ((0, 0, 0), (511, 511, 511), (361, 361, 361), (1, 510, 255)):
+                c = il
+                for k in range(3):
+                    c = (c << 10) | (((bits >> k) & 1) << 9) | mags[k]
+                dq.append(c)
+    dq += [rng.getrandbits(32) for _ in range(3000 if thorough else 600)]
+    dq += [0, 1, 2 ** 32 - 1, 2 ** 32, 2 ** 32 + 12345, 2 ** 33, 5 << 30, rng.getrandbits(40) | (1 << 39)]
+    for c in dq:
+        add('dq', 'dq %d' % c, lambda c=c: real_dq(c), {'op': 'decompress', 'comp': c}, ('dq', c), 'dq:' + ('range' if c < 2 ** 32 else 'too-big'),
+            post=dq_expected)
+    # ---- compressed trajectory coordinates / yaw
+    import math
+    coords = [0.0, -0.0, 0.001, -0.001, 0.0004, -0.0004, 0.0009999, 1.0, -1.0, 1.001, -1.001, 32.767, -32.768, 32.768, -32.769,
+              32.7679, -32.7689, 32.76799999, 40.0, -40.0, 1e6, -1e6, 1e-9, 123.456789, 0.1, 0.2, 0.3, 2.675, 65.535, 65.536,
+              5e-324, -5e-324, 2.2250738585072014e-308, 1e-320, 9007199254740.993, 9007199254740.992, 1.8e305, 1.7976931348623157e308,
+              -1.7976931348623157e308, 1.7976931348623157e305, 1.797693134862315e305, 4503599627370.4965, 1e300, 123456789012.34567]
+    coords += [rng.uniform(-33, 33) for _ in range(3000 if thorough else 500)]
+    coords += [rng.uniform(-0.01, 0.01) for _ in range(100)]
+    coords += [rng.choice([1, -1]) * (32.768 + rng.uniform(-0.003, 0.003)) for _ in range(200)]
+    coords += [rng.randrange(-40000, 40000) / 1000.0 for _ in range(3000 if thorough else 600)]     # decimal millimetres: products near integers
+    for x in coords:
+        if on_boundary(x, 1000):
+            ctx.count('spatial:binary64-product-rounds-to-integer')
+        add('spatial', 'spatial ' + qtxt(x), lambda x=x: real_spatial(x), {'op': 'encode_spatial', 'x': x}, ('spatial', x),
+            'spatial:' + ('in-range' if abs(x) < 32.767 else 'out-of-range' if abs(x) < 1e300 else 'huge'))
+    angles = [0.0, math.pi, -math.pi, math.pi / 2, 2 * math.pi, 1e-4, -1e-4, 57.19, -57.2, 57.188, 3276.7 * math.pi / 180, 0.0174, -0.0174]
+    angles += [rng.uniform(-7, 7) for _ in range(2000 if thorough else 400)]
+    angles += [math.radians(rng.randrange(-36000, 36000) / 10.0) for _ in range(2000 if thorough else 400)]
+    angles += [rng.choice([1, -1]) * math.radians(3276.8 + rng.uniform(-0.3, 0.3)) for _ in range(100)]
+    for a in angles:
+        deg = math.degrees(a)
+        if on_boundary(deg, 10):
+            ctx.count('yaw:binary64-product-rounds-to-integer')
+        add('yaw', 'yaw ' + qtxt(deg), lambda a=a: real_yaw(a), {'op': 'encode_yaw', 'rad': a}, ('yaw', a),
+            'yaw:' + ('in-range' if abs(deg) < 3276.7 else 'out-of-range'))
+
+    def coord():
+        r = rng.random()
+        if r < 0.7:
+            return rng.uniform(-32, 32)
+        if r < 0.85:
+            return rng.choice([1, -1]) * (32.768 + rng.uniform(-0.002, 0.002))
+        if r < 0.95:
+            return rng.randrange(-33000, 33000) / 1000.0
+        return rng.uniform(-100, 100)
+
+    def angle():
+        r = rng.random()
+        if r < 0.8:
+            return rng.uniform(-7, 7)
+        if r < 0.95:
+            return rng.choice([1, -1]) * math.radians(3276.8 + rng.uniform(-0.2, 0.2))
+        return rng.uniform(-100, 100)
+
+    for _ in range(1500 if thorough else 300):
+        x, y, z, w = coord(), coord(), coord(), angle()
+        ok = all(abs(int(c * 1000)) <= 32767 for c in (x, y, z)) and abs(int(math.degrees(w) * 10)) <= 32767
+        add('start', 'start %s %s %s %s' % (qtxt(x), qtxt(y), qtxt(z), qtxt(math.degrees(w))), lambda x=x, y=y, z=z, w=w: real_start(x, y, z, w),
+            {'op': 'CompressedStart.pack', 'x': x, 'y': y, 'z': z, 'yaw': w}, ('start', x, y, z, w), 'start:' + ('ok' if ok else 'overflow'))
+    for _ in range(1500 if thorough else 300):
+        lens = [rng.choice([0, 1, 3, 7]) if rng.random() < 0.93 else rng.choice([2, 4, 5, 6, 8]) for _ in range(4)]
+        small = rng.random() < 0.8
+        el = [[(rng.uniform(-3, 3) if small else coord()) for _ in range(n)] for n in lens[:3]] + [[(rng.uniform(-3, 3) if small else angle()) for _ in range(lens[3])]]
+        d = rng.choice([0.0, 0.5, 1.0, 2.5, 65.535, 65.536, 70.0, -0.5, rng.uniform(0, 66)])
+        line = 'segment %s %s' % (qtxt(d), ' '.join((','.join(qtxt(v) for v in e) or '-') for e in el[:3]))
+        line += ' ' + (','.join(qtxt(math.degrees(a)) for a in el[3]) or '-')
+        add('segment', line, lambda d=d, el=el: real_segment(d, el[0], el[1], el[2], el[3]),
+            {'op': 'CompressedSegment.pack', 'duration': d, 'lens': lens}, ('segment', d, tuple(map(tuple, el))),
+            'segment:lens-' + ('valid' if all(n in (0, 1, 3, 7) for n in lens) else 'invalid'))
+    # ---- LED ring: EVERY (level, intensity) pair on all three channels, then mixed colours, wrapped and out-of-range values
+    pairs = [(c, i) for c in range(256) for i in range(101)]
+    for k in range(0, len(pairs), 12):
+        chunk = pairs[k:k + 12]
+        chunk = chunk + [(0, 0)] * (12 - len(chunk))
+        leds = [(c, c, c, i) for c, i in chunk]
+        add('led', 'led ' + ','.join('%d:%d:%d:%d' % l for l in leds), lambda leds=leds: real_led(leds),
+            {'op': 'LEDDriverMemory.write_data', 'first': leds[0]}, ('led', tuple(leds)), 'led:exhaustive')
+    for _ in range(600 if thorough else 150):
+        mode = rng.choice(['mixed', 'mixed', 'wrap', 'over'])
+        leds = []
+        for _ in range(12):
+            if mode == 'mixed':
+                leds.append((rng.randrange(256), rng.randrange(256), rng.randrange(256), rng.randrange(101)))
+            elif mode == 'wrap':
+                leds.append((rng.randrange(-300, 600), rng.randrange(-300, 600), rng.randrange(-300, 600), rng.randrange(101)))
+            else:
+                leds.append((rng.randrange(256), rng.randrange(256), rng.randrange(256), rng.choice([100, 101, 150, 200, 255, 1000, 826])))
+        add('led', 'led ' + ','.join('%d:%d:%d:%d' % l for l in leds), lambda leds=leds: real_led(leds),
+            {'op': 'LEDDriverMemory.write_data', 'mode': mode, 'first': leds[0]}, ('led', tuple(leds)), 'led:' + mode)
+    for _ in range(500 if thorough else 120):
+        ts = []
+        for _ in range(rng.randrange(0, 7)):
+            if rng.random() < 0.15:
+                ts.append((rng.choice([0, 256, 512]), rng.choice([0, 1, 2, 4]), rng.choice([0, 1, 2]), rng.choice([0, 3, 4]), rng.choice([0, 16, 32]), 0, rng.choice([0, 8, 16])))
+            else:
+                ts.append((rng.randrange(0, 600), rng.randrange(-10, 300), rng.randrange(256), rng.randrange(256), rng.randrange(0, 40), rng.randrange(2), rng.randrange(0, 20)))
+        add('ledt', 'ledt ' + (','.join('%d:%d:%d:%d:%d:%d:%d' % t for t in ts) or '-'), lambda ts=ts: real_ledt(ts),
+            {'op': 'LEDTimingsDriverMemory.write_data', 'n': len(ts)}, ('ledt', tuple(ts)), 'ledt:n=%d' % min(len(ts), 3))
+    # ---- localization packets
+    import struct
+
+    def f32():
+        r = rng.random()
+        if r < 0.25:
+            return rng.choice(SPECIAL_F32)
+        if r < 0.85:
+            return struct.unpack('<I', struct.pack('<f', rng.uniform(-4, 4)))[0]
+        return rng.getrandbits(32)
+
+    def f16():
+        r = rng.random()
+        if r < 0.35:
+            return rng.choice(SPECIAL_F16)
+        if r < 0.8:
+            return int(__import__('numpy').float16(rng.uniform(-0.5, 0.5)).view('uint16'))
+        return rng.getrandbits(16)
+    pk = []
+    for _ in range(2500 if thorough else 500):
+        n = rng.choice([0, 1, 2, 3, 5, 6, 8, 12])
+        ids = [rng.randrange(256) if rng.random() < 0.8 else rng.choice([0, 1, 1, 255]) for _ in range(n)]
+        body = b''.join(bytes([i]) + struct.pack('<I', f32()) for i in ids)
+        if rng.random() < 0.1:
+            body = body[:rng.randrange(len(body) + 1)] if body else b'\x01'
+        pk.append(('range', bytes([0]) + body))
+    for _ in range(2500 if thorough else 500):
+        body = bytes([rng.randrange(256)]) + struct.pack('<I', f32()) + b''.join(struct.pack('<H', f16()) for _ in range(3)) + \
+            struct.pack('<I', f32()) + b''.join(struct.pack('<H', f16()) for _ in range(3))
+        if rng.random() < 0.08:
+            body = body[:rng.randrange(len(body))] if rng.random() < 0.5 else body + bytes(rng.randrange(1, 4))
+        pk.append(('lh', bytes([10]) + body))
+    for h in SPECIAL_F16:
+        body = bytes([1]) + struct.pack('<I', 0x3F800000) + struct.pack('<HHH', h, 0x3C00, h ^ 0x8000) + struct.pack('<I', 0xBF000000) + struct.pack('<HHH', 0, h, 0x8000)
+        pk.append(('lh', bytes([10]) + body))
+    for _ in range(200):
+        t = rng.choice([11, 11, 1, 2, 3, 6, 9, 255, rng.randrange(256)])
+        pk.append(('other', bytes([t]) + bytes(rng.randrange(256) for _ in range(rng.choice([0, 0, 1, 2, 7])))))
+    pk.append(('empty', b''))
+    for kind, raw in pk:
+        add('inc', 'inc ' + (raw.hex() or '-'), lambda raw=raw: real_incoming(raw), {'op': 'Localization._incoming', 'data': raw.hex()},
+            ('inc', raw), 'inc:' + kind, post=canon_model_incoming)
     return cases
 
 
@@ -343,13 +1034,19 @@ def correspond(ctx):
     _quiet()
     cases = gen_cases(ctx)
     replies = ctx.lean(DRIVER, [c[1] for c in cases])
-    for (kind, line, thunk, desc, key, cnt), model in zip(cases, replies):
+    for (kind, line, thunk, desc, key, cnt, post, cmp), model in zip(cases, replies):
         real = thunk()
-        model = canon_model_num(model)
+        if post is not None:
+            model = post(model)
         ctx.count(cnt)
-        ctx.count('result:' + ' '.join(real.split(' ')[:2]).split(':')[0])
+        ctx.count('result:' + kind + ':' + (real.split(' ')[1] if real.startswith('err') else 'ok'))
         ctx.case(desc, key)
-        if real != model:
+        if cmp is not None:
+            same, how = cmp(model, real)
+            ctx.count(kind + ':cmp:' + how)
+        else:
+            same = real == model
+        if not same:
             ctx.disagree(kind, line[:300], model[:300], real[:300])
 
 
